@@ -571,6 +571,78 @@ func runC19(c *harness.Ctx) {
 		}
 		R.Cover("C19/lost-update-checks")
 	}
+	// bounded-range stress: writers keep the counter within [-G, +G] (each adds +1 then -1, or -1
+	// then +1), readers must never see a value outside that range through any accessor
+	{
+		var cn vmatomic.Counter
+		var i64 vmatomic.Int64
+		var fl vmatomic.Flag
+		const G = 6
+		stop := make(chan struct{})
+		var wg sync.WaitGroup
+		var bad atomic.Value
+		for g := 0; g < G; g++ {
+			wg.Add(1)
+			go func(g int) {
+				defer wg.Done()
+				for {
+					select {
+					case <-stop:
+						return
+					default:
+					}
+					if g%2 == 0 {
+						cn.Increment()
+						cn.Decrement()
+						cn.Add(1)
+						cn.Subtract(1)
+					} else {
+						cn.Decrement()
+						cn.Increment()
+						cn.Subtract(1)
+						cn.Add(1)
+					}
+					i64.Set(int64(g))
+					fl.Toggle(g%2 == 0)
+				}
+			}(g)
+		}
+		var reads int64
+		for k := 0; k < 4; k++ {
+			wg.Add(1)
+			go func() {
+				defer wg.Done()
+				for {
+					select {
+					case <-stop:
+						return
+					default:
+					}
+					if v := cn.GetUint64(); v > G {
+						bad.Store(fmt.Sprintf("GetUint64() = %d while the counter stays within [-%d, %d]", v, G, G))
+					}
+					if v := cn.Get(); v > G || v < -G {
+						bad.Store(fmt.Sprintf("Get() = %d while the counter stays within [-%d, %d]", v, G, G))
+					}
+					if v := i64.Get(); v < 0 || v >= G {
+						bad.Store(fmt.Sprintf("Int64.Get() = %d, a value never written", v))
+					}
+					_ = fl.IsSet()
+					atomic.AddInt64(&reads, 1)
+				}
+			}()
+		}
+		time.Sleep(time.Duration(c.Scale(300, 1500)) * time.Millisecond)
+		close(stop)
+		wg.Wait()
+		if msg, ok := bad.Load().(string); ok {
+			R.Violate("C19:value-never-held:Counter", "a reader observed a value the object never held: "+msg, nil)
+		}
+		if v := cn.Get(); v != 0 {
+			R.Violate("C19:lost-update:Counter", fmt.Sprintf("after balanced +1/-1 pairs the counter is %d", v), nil)
+		}
+		R.CoverN("C19/bounded-range-reads", reads)
+	}
 	c19Stress(c)
 }
 
@@ -664,6 +736,15 @@ func c19Stress(c *harness.Ctx) {
 				runtime.Gosched()
 			}
 		}
+		if kind == world.KLoad {
+			// the load of the destination account: stretch it now and then, it sits between the
+			// read of the base cost and the read of the per-byte price
+			if atomic.AddInt64(&delays, 1)%3 == 0 {
+				time.Sleep(300 * time.Microsecond)
+			} else {
+				runtime.Gosched()
+			}
+		}
 	}
 	cost := func(m map[string]map[string]uint64, f string) uint64 {
 		if v, ok := m[vmcommon.BuiltInCostString][f]; ok {
@@ -711,7 +792,7 @@ func c19Stress(c *harness.Ctx) {
 				seq++
 				t := tokens[rg.Intn(len(tokens))]
 				gas := uint64(1) << 50
-				switch rg.Intn(24) {
+				switch rg.Intn(25) {
 				case 0:
 					call(FTransfer, me, peer, mkIn(a.me, a.peer, gas, t, gen.Big(1)))
 				case 1:
@@ -761,8 +842,22 @@ func c19Stress(c *harness.Ctx) {
 						}
 						priced(FNFTXfer, gas, out, err, cost(SA, "ESDTNFTTransfer")+n*cost(SA, "DataCopyPerByte"), cost(SB, "ESDTNFTTransfer")+n*cost(SB, "DataCopyPerByte"))
 					}
-				case 13:
-					call(FMulti, me, me, mkIn(a.me, a.me, gas, a.peer, gen.Big(2), t, []byte{}, gen.Big(1), t, gen.U64(1), gen.Big(1)))
+				case 13: // same shard: own cost x 2 + data-copy price x payload bytes, payload = the entry with the destination's new total
+					out, err := call(FMulti, me, me, mkIn(a.me, a.me, gas, a.peer, gen.Big(2), t, []byte{}, gen.Big(1), t, gen.U64(1), gen.Big(1)))
+					if err == nil && out != nil {
+						if v := peer.Peek([]byte(node.StorageKey(t, 1))); len(v) > 0 {
+							n := uint64(len(v)) // what was marshalled for the gas computation is what was stored at the destination
+							priced(FMulti+"-same-shard", gas, out, err, 2*cost(SA, "ESDTNFTMultiTransfer")+n*cost(SA, "DataCopyPerByte"), 2*cost(SB, "ESDTNFTMultiTransfer")+n*cost(SB, "DataCopyPerByte"))
+						}
+					}
+				case 23: // same-shard single NFT transfer, priced likewise
+					out, err := call(FNFTXfer, me, me, mkIn(a.me, a.me, gas, t, gen.U64(1), gen.Big(1), a.peer))
+					if err == nil && out != nil {
+						if v := peer.Peek([]byte(node.StorageKey(t, 1))); len(v) > 0 {
+							n := uint64(len(v))
+							priced(FNFTXfer+"-same-shard", gas, out, err, cost(SA, "ESDTNFTTransfer")+n*cost(SA, "DataCopyPerByte"), cost(SB, "ESDTNFTTransfer")+n*cost(SB, "DataCopyPerByte"))
+						}
+					}
 				case 14:
 					out, err := call(FMulti, me, me, mkIn(a.me, a.me, gas, a.far, gen.Big(2), t, []byte{}, gen.Big(1), t, gen.U64(1), gen.Big(1)))
 					if err == nil && out != nil {
